@@ -60,6 +60,9 @@ func verifH_C16_adopt() {
 		s := &store.slots[idx[pick]]
 		switch verifChoose("damage", 3) {
 		case 0: // altered: checksum fails (detection itself is C15)
+			if len(s.val) == 0 {
+				continue // already truncated to nothing by the first damage
+			}
 			s.val[len(s.val)-1] ^= 1
 			unusable++
 		case 1: // truncated below the trailer size
